@@ -148,3 +148,72 @@ def reused_containers(rep, rng, tier, key="predict_position:container"):
                                   dict(model=kind, container=form, X=X.tolist(), Y=Y.tolist(), first_batch=Q1.tolist(), second_batch=Q2.tolist()), key=key)
     rep.corr["containers_refilled_in_place"] = dict(cases=runs)
     return nviol
+
+
+def reused_label_buffers(rep, rng, tier, key="measures:buffer"):
+    """The evaluation measures on caller-owned label / prediction arrays that are refilled in place between calls (a ground
+    truth corrected in place, the validation labels `learn` swaps): every call must return what it returns on fresh copies of
+    the current contents."""
+    import opfython.math.general as g
+    nviol, runs = 0, 0
+    fns = [("confusion_matrix", g.confusion_matrix), ("opf_accuracy", g.opf_accuracy),
+           ("opf_accuracy_per_label", g.opf_accuracy_per_label), ("purity", g.purity)]
+    for rd in range(12 if tier == "quick" else 400):
+        n = rng.randint(4, 30)
+        K = rng.randint(2, 4)
+        lab_buf, pred_buf = np.zeros(n, dtype=int), np.zeros(n, dtype=int)
+        fills, gots = [], []
+        for step in range(4):
+            while True:
+                lab = [rng.randrange(K) for _ in range(n)]
+                if len(set(lab)) == K:
+                    break
+            # class sizes change from one filling to the next
+            if step % 2 == 1:
+                big = rng.randrange(K)
+                lab2 = [big if (rng.random() < 0.5 and lab.count(l) > 1) else l for l in lab]
+                if len(set(lab2)) == K:
+                    lab = lab2
+            prd = [l if rng.random() < 0.6 else rng.randrange(K) for l in lab]
+            lab_buf[:] = lab; pred_buf[:] = prd
+            res = {}
+            for name, fn in fns:
+                try:
+                    res[name] = np.asarray(fn(lab_buf, pred_buf), dtype=float)
+                except Exception as ex:   # noqa
+                    res[name] = ex
+            fills.append((lab, prd)); gots.append(res)
+            rep.count_case(("label-buffer", tuple(lab), tuple(prd)), True)
+        # only now the same contents in fresh arrays (no call on another array object in between the buffered ones)
+        for step, ((lab, prd), res) in enumerate(zip(fills, gots)):
+            for name, fn in fns:
+                try:
+                    want = np.asarray(fn(np.array(lab), np.array(prd)), dtype=float)
+                except Exception:   # noqa
+                    continue
+                got = res[name]
+                runs += 1
+                if isinstance(got, Exception) or got.shape != want.shape or not np.array_equal(got, want, equal_nan=True):
+                    nviol += 1
+                    if nviol <= 2:
+                        rep.violation("%s on label / prediction arrays refilled in place (filling number %d of the same two array objects) returns %r, on fresh copies of "
+                                      "the same contents %r" % (name, step + 1, got if isinstance(got, Exception) else got.tolist(), want.tolist()),
+                                      dict(function=name, labels=lab, preds=prd, filling=step + 1, classes=K,
+                                           earlier_fillings=[dict(labels=a, preds=b) for a, b in fills[:step]]), key=key)
+    # normalize: a caller-owned matrix refilled in place
+    buf = np.zeros((6, 3))
+    for rd in range(6 if tier == "quick" else 200):
+        A = np.array([[rng.uniform(-5, 5) * (10 ** rng.randint(0, 2)) for _ in range(3)] for _ in range(6)])
+        buf[:, :] = A
+        try:
+            got, want = np.asarray(g.normalize(buf)), np.asarray(g.normalize(A.copy()))
+        except Exception:   # noqa
+            continue
+        runs += 1
+        if not np.array_equal(got, want, equal_nan=True) or not np.array_equal(buf, A):
+            nviol += 1
+            if nviol <= 2:
+                rep.violation("normalize on a matrix refilled in place differs from normalize on a fresh copy (or modified its argument)",
+                              dict(function="normalize", array=A.tolist(), filling=rd + 1), key=key)
+    rep.corr["measures_on_reused_buffers"] = dict(cases=runs)
+    return nviol
